@@ -2,7 +2,7 @@
 
 DEV-mode enumeration over the 2.1 grammar (and the 2.0 grammar where the installed third-party parser accepts the text): the FULL product
 of the atom menus (12 operators x NOT x every compatible constant kind x path shapes), all comparison trees and all observation trees
-with <= 3 (thorough 4) leaves over every operator assignment and EVERY parenthesisation incl. redundant ones, every qualifier kind alone
+with <= 4 (thorough 5) leaves over every operator assignment and every shape (EVERY parenthesisation incl. redundant ones up to 3 leaves), every qualifier kind alone
 and stacked, on leaves and on groups.  For every generated syntax tree:
   text -> create_pattern_object -> model -> str = text2 -> create_pattern_object -> str = text3
   tree -> public model classes (grouping through ParentheticalExpression) -> str = text4
@@ -382,12 +382,14 @@ def families(thorough):
     fam.append(("atoms", [("leaf", a) for a in A.atom_menu()]))
     nmax = 4 if thorough else 3
     ct = []
-    for n in (2, 3) + ((4,) if thorough else ()):
+    # 2 and 3 leaves with every choice of redundant parentheses; 4 (thorough: 5) leaves in every shape and operator assignment without redundant parentheses
+    # (a chain such as a OR b OR c AND d needs four comparisons)
+    for n in (2, 3, 4) + ((5,) if thorough else ()):
         ct += A.trees(LEAVES, ["AND", "OR"], n, lambda x: ("cparen", x), lambda op, xs: ("bool", op, xs), optional_parens=n < 4)
     fam.append(("comparison-trees", [("leaf", t) for t in ct]))
     OL = [("leaf", x) for x in LEAVES]
     ot = []
-    for n in (2, 3) + ((4,) if thorough else ()):
+    for n in (2, 3, 4) + ((5,) if thorough else ()):
         ot += A.trees(OL, ["AND", "OR", "FOLLOWEDBY"], n, lambda x: ("oparen", x), lambda op, xs: ("obs", op, xs), optional_parens=n < 4)
     fam.append(("observation-trees", ot))
     qt = []
@@ -709,11 +711,11 @@ def run(run):
     sizes["constants"] = len(constant_menu())
     sizes["raw-values"] = len(RAW) ** (3 if th else 2)
     run.mode = "DEV"
-    run.rule = ("full product of the atom menus (operator x NOT x constant x path) + all comparison / observation trees with <= %d leaves over every operator assignment and every "
+    run.rule = ("full product of the atom menus (operator x NOT x constant x path) + all comparison / observation trees with <= %d leaves over every operator assignment (redundant parentheses in every position up to 3 leaves) and every "
                 "parenthesisation + qualifier placements (alone, stacked, on operand vs on group) + mixed trees; each through text->model->text (twice), field-by-field model walk and "
                 "programmatic construction; every model constant class x value menu (refused, or valid text with the same value); every sequence of %d raw Python values through the "
-                "comparison classes (type chosen for a value independent of earlier values); every (text, call shape, earlier use of the first model) triple parsed a second time; under the 2.1 grammar and, where the third-party 2.0 parser accepts the text, the 2.0 grammar; states = distinct (grammar version, text)" % (4 if th else 3, 3 if th else 2))
-    run.bound = {"families": sizes, "max_leaves": 4 if th else 3}
+                "comparison classes (type chosen for a value independent of earlier values); every (text, call shape, earlier use of the first model) triple parsed a second time; under the 2.1 grammar and, where the third-party 2.0 parser accepts the text, the 2.0 grammar; states = distinct (grammar version, text)" % (5 if th else 4, 3 if th else 2))
+    run.bound = {"families": sizes, "max_leaves": 5 if th else 4}
     run.assumptions += ["independent reader mc/ref/pattern_ast.py on top of the third-party stix2-patterns ANTLR parse tree (its grammar is the definition of 'valid pattern')",
                         "structural equality ignores redundant parentheses and flattens chains of one associative operator (AND / OR / FOLLOWEDBY)"]
     run.pmap(run_case, cases, order_independent=True)
